@@ -16,7 +16,6 @@
 (***************************************************************************)
 EXTENDS Vocab, Json, IOUtils
 
-Alias(n) == IF n = "OrderedItems" THEN "Items" ELSE n
 FieldOK(f, t) == f.type = t.type /\ f.off = t.off /\ f.size = t.size /\ Alias(f.name) = Alias(t.name)
 SiteWhy(L, s) ==
   IF s.from \notin DOMAIN L \/ s.to \notin DOMAIN L THEN <<"unknown-type">>
@@ -38,9 +37,15 @@ VocabWhy(g, rows) ==
   LET P == Props(g) m == FirstMissing(P, rows, 1, 1) IN
   IF m = 0 THEN <<>> ELSE <<"term:" \o g \o "." \o P[m].t>>
 
-\* dynamic observation of one helper x source type x form
+\* dynamic observation of one helper x source type x form.  A helper may refuse; what it presents must be faithful;
+\* Growth (outside the statement, reported as observations): a callback helper that neither calls back nor reports an
+\* error ("silent"), or that swallows the callback's error ("error-lost"); and the vocabulary says which views EXIST -- X is a view of
+\* g exactly when X's rows are a prefix of g's (items/orderedItems being one row) -- so a refusal of such a view is noted.
+Target(fn) == SubSeq(fn, 3, Len(fn))
+ViewExists(fn, g) == IsViewOf(Target(fn), g)
 ViewWhy(ev) ==
-  IF ev.outcome = "refused" THEN <<>>
+  IF ev.outcome = "refused" THEN (IF ViewExists(ev.fn, ev.from) THEN <<"note:refuses-a-view-the-vocabulary-has">> ELSE <<>>)
+  ELSE IF ev.outcome \in {"silent", "error-lost"} THEN <<"note:" \o ev.outcome>>
   ELSE IF ev.outcome # "view" THEN <<ev.outcome>>
   ELSE IF ev.bad = <<>> THEN <<>> ELSE <<"unfaithful">>
 
